@@ -119,6 +119,7 @@ impl From<Details> for Error {
 impl Error {
     pub fn new(details: Details) -> (r: Self) ensures *r.details == details { Self { details: Box::new(details) } }
     pub fn into_details(self) -> (r: Details) ensures r == *self.details { *self.details }
+    pub fn details(&self) -> (r: &Details) ensures *r == *self.details { &*self.details }
 }
 
 // A15: Verus models `?` through an uninterpreted `spec_from`; Rust defines it as `From::from` (reference, "?" operator).
@@ -159,3 +160,27 @@ pub fn slice_copy_from_slice(dst: &mut [u8], src: &[u8])
     ensures final(dst)@ == src@,
 { dst.copy_from_slice(src) }
 pub assume_specification<T, A: std::alloc::Allocator>[<Vec<T, A> as AsRef<[T]>>::as_ref](v: &Vec<T, A>) -> (r: &[T]) ensures r@ == v@;
+
+// A2b: std::io::Read::read — "Ok(0) means end of file (or an empty buffer)"; at most buf.len() bytes, a prefix of the rest
+impl Source {
+    #[verifier::external_body]
+    pub fn read(&mut self, buf: &mut [u8]) -> (r: Result<usize, IoError>)
+        ensures
+            final(buf)@.len() == old(buf)@.len(),
+            final(self).reliable() == old(self).reliable(),
+            match r {
+                Ok(n) => n <= old(buf)@.len() && n <= old(self)@.len()
+                    && (forall|i: int| 0 <= i < n ==> final(buf)@[i] == old(self)@[i])
+                    && final(self)@ == old(self)@.skip(n as int)
+                    && (n == 0 && old(buf)@.len() > 0 ==> old(self)@.len() == 0)
+                    && (old(self).reliable() && old(buf)@.len() > 0 && old(self)@.len() > 0 ==> n > 0),
+                Err(e) => !old(self).reliable() && final(self)@ == old(self)@ },
+    { unimplemented!() }
+    /// `&[u8]::len()` of an in-memory source
+    #[verifier::external_body]
+    pub fn len(&self) -> (r: usize) ensures r == self@.len() { unimplemented!() }
+}
+impl IoError {
+    #[verifier::external_body]
+    pub fn is_interrupted(&self) -> (r: bool) ensures r == (self.k == ErrorKind::Interrupted) { self.k == ErrorKind::Interrupted }
+}
